@@ -298,6 +298,11 @@ func recheck(pkgs map[string]*packages.Package) error {
 			Implicits: map[ast.Node]types.Object{}, Selections: map[*ast.SelectorExpr]*types.Selection{}, Scopes: map[ast.Node]*types.Scope{},
 			Instances: map[*ast.Ident]types.Instance{},
 		}
+		// nodes copied in by a pre-pass carry positions outside the package's files; go/types looks up the
+		// file of a position (for its language version) and panics when there is none: the last file catches all
+		if k := len(p.Syntax); k > 0 {
+			p.Syntax[k-1].FileStart, p.Syntax[k-1].FileEnd = 1, token.Pos(1<<62)
+		}
 		conf := types.Config{Importer: imp, GoVersion: p.Types.GoVersion()}
 		tp, err := conf.Check(path, p.Fset, p.Syntax, info)
 		if err != nil {
@@ -433,19 +438,28 @@ func specialise(pkgs map[string]*packages.Package) ([]string, error) {
 // type-checked again. The program keeps its behaviour: these are identities of
 // Go's boolean and comparison operators on the (side-effect free or not)
 // operands, evaluated in the same order.
-func normaliseSyntax(pkgs map[string]*packages.Package) (int, error) {
+func normaliseSyntax(pkgs map[string]*packages.Package) (int, []string, error) {
 	total := 0
-	for iter := 0; iter < 6; iter++ {
+	var notes []string
+	for iter := 0; iter < 8; iter++ {
 		n := normaliseOnce(pkgs)
-		if n == 0 {
+		if n > 0 {
+			if err := recheck(pkgs); err != nil {
+				return total, notes, err
+			}
+		}
+		// a helper that a normal form has just reduced to one line is substituted now
+		in, err := inlineTrivial(pkgs)
+		if err != nil {
+			return total, notes, err
+		}
+		notes = append(notes, in...)
+		if n == 0 && len(in) == 0 {
 			break
 		}
 		total += n
-		if err := recheck(pkgs); err != nil {
-			return total, err
-		}
 	}
-	return total, nil
+	return total, notes, nil
 }
 
 func normaliseOnce(pkgs map[string]*packages.Package) int {
@@ -554,6 +568,31 @@ func normaliseOnce(pkgs map[string]*packages.Package) int {
 				n++
 				return true
 			}, nil)
+			// (c0) `if c := cond; c {…}` with c used nowhere else is `if cond {…}`
+			ast.Inspect(f, func(nd ast.Node) bool {
+				is, ok := nd.(*ast.IfStmt)
+				if !ok || is.Init == nil {
+					return true
+				}
+				as, ok := is.Init.(*ast.AssignStmt)
+				if !ok || as.Tok != token.DEFINE || len(as.Lhs) != 1 || len(as.Rhs) != 1 {
+					return true
+				}
+				lhs, ok := as.Lhs[0].(*ast.Ident)
+				if !ok || info.Defs[lhs] == nil || useCount[info.Defs[lhs]] != 1 {
+					return true
+				}
+				cid, ok := is.Cond.(*ast.Ident)
+				if !ok || info.Uses[cid] != info.Defs[lhs] {
+					return true
+				}
+				if b, isB := info.Defs[lhs].Type().Underlying().(*types.Basic); !isB || b.Info()&types.IsBoolean == 0 {
+					return true
+				}
+				is.Init, is.Cond = nil, as.Rhs[0]
+				n++
+				return true
+			})
 			// (c) `c := cond; if c {…}` with c used nowhere else is `if cond {…}`
 			astutil.Apply(f, func(c *astutil.Cursor) bool {
 				blk, ok := c.Node().(*ast.BlockStmt)
@@ -652,6 +691,32 @@ func normaliseOnce(pkgs map[string]*packages.Package) int {
 				n++
 				return true
 			})
+			// (l) an if/else on an equality or a negation is written on the inequality / the plain operand:
+			// `if x == y {A} else {B}` is `if x != y {B} else {A}`
+			ast.Inspect(f, func(nd ast.Node) bool {
+				is, ok := nd.(*ast.IfStmt)
+				if !ok {
+					return true
+				}
+				el, ok := is.Else.(*ast.BlockStmt)
+				if !ok {
+					return true
+				}
+				swap := false
+				switch x := is.Cond.(type) {
+				case *ast.BinaryExpr:
+					swap = x.Op == token.EQL
+				case *ast.UnaryExpr:
+					swap = x.Op == token.NOT
+				}
+				if !swap {
+					return true
+				}
+				is.Cond = neg(is.Cond)
+				is.Body, is.Else = el, is.Body
+				n++
+				return true
+			})
 			// (f) at the end of a block, `if c {X} else {REST}` where X leaves the block is `if c {X}; REST`;
 			// at the end of a loop body X is made to leave it (continue)
 			astutil.Apply(f, nil, func(c *astutil.Cursor) bool {
@@ -711,7 +776,7 @@ func normaliseOnce(pkgs map[string]*packages.Package) int {
 								}
 							}
 						}
-						if _, ok := st.(*ast.DeclStmt); ok {
+						if ds, ok := st.(*ast.DeclStmt); ok && declClashes(ds, sc) {
 							clash = true
 						}
 					}
@@ -724,6 +789,85 @@ func normaliseOnce(pkgs map[string]*packages.Package) int {
 					is.Else = nil
 					body.List = append(body.List, el.List...)
 					n++
+				}
+				return true
+			})
+			// (k) of two ways to write an early exit — `if c {A; leave}; B; leave` and `if !c {B; leave}; A; leave` —
+			// the one whose guarded arm is the smaller is the normal form
+			astutil.Apply(f, nil, func(c *astutil.Cursor) bool {
+				body, ok := c.Node().(*ast.BlockStmt)
+				if !ok {
+					return true
+				}
+				for i := 0; i < len(body.List)-1; i++ {
+					is, ok := body.List[i].(*ast.IfStmt)
+					if !ok || is.Else != nil || !terminates(is.Body) {
+						continue
+					}
+					rest := body.List[i+1:]
+					if !stmtTerminates(rest[len(rest)-1]) {
+						continue
+					}
+					size := func(list []ast.Stmt) int {
+						k := 0
+						for _, st := range list {
+							ast.Inspect(st, func(ast.Node) bool { k++; return true })
+						}
+						return k
+					}
+					if size(is.Body.List) <= size(rest) {
+						continue
+					}
+					bad := false
+					for _, st := range rest {
+						if _, ok := st.(*ast.LabeledStmt); ok {
+							bad = true
+						}
+					}
+					if is.Init != nil {
+						own := map[types.Object]bool{}
+						ast.Inspect(is.Init, func(m ast.Node) bool {
+							if id, ok := m.(*ast.Ident); ok && info.Defs[id] != nil {
+								own[info.Defs[id]] = true
+							}
+							return true
+						})
+						ast.Inspect(is.Body, func(m ast.Node) bool {
+							if id, ok := m.(*ast.Ident); ok && own[info.Uses[id]] {
+								bad = true
+							}
+							return true
+						})
+					}
+					sc := info.Scopes[body]
+					if sc == nil {
+						if ft, ok := c.Parent().(*ast.FuncDecl); ok {
+							sc = info.Scopes[ft.Type]
+						} else if fl, ok := c.Parent().(*ast.FuncLit); ok {
+							sc = info.Scopes[fl.Type]
+						}
+					}
+					for _, st := range is.Body.List {
+						if as, ok := st.(*ast.AssignStmt); ok && as.Tok == token.DEFINE {
+							for _, l := range as.Lhs {
+								if id, ok := l.(*ast.Ident); ok && id.Name != "_" && (sc == nil || sc.Lookup(id.Name) != nil) {
+									bad = true
+								}
+							}
+						}
+						if ds, ok := st.(*ast.DeclStmt); ok && declClashes(ds, sc) {
+							bad = true
+						}
+					}
+					if bad {
+						continue
+					}
+					a := is.Body.List
+					is.Cond = neg(is.Cond)
+					is.Body = &ast.BlockStmt{Lbrace: is.Body.Lbrace, List: append([]ast.Stmt{}, rest...), Rbrace: is.Body.Rbrace}
+					body.List = append(body.List[:i+1:i+1], a...)
+					n++
+					break
 				}
 				return true
 			})
@@ -965,4 +1109,29 @@ func exprText(e ast.Expr) string {
 	var b bytes.Buffer
 	printer.Fprint(&b, token.NewFileSet(), e)
 	return b.String()
+}
+
+// declClashes: a declaration statement moved into the scope would redeclare one of its names.
+func declClashes(ds *ast.DeclStmt, sc *types.Scope) bool {
+	gd, ok := ds.Decl.(*ast.GenDecl)
+	if !ok || sc == nil {
+		return true
+	}
+	for _, sp := range gd.Specs {
+		switch x := sp.(type) {
+		case *ast.ValueSpec:
+			for _, nm := range x.Names {
+				if nm.Name != "_" && sc.Lookup(nm.Name) != nil {
+					return true
+				}
+			}
+		case *ast.TypeSpec:
+			if sc.Lookup(x.Name.Name) != nil {
+				return true
+			}
+		default:
+			return true
+		}
+	}
+	return false
 }
